@@ -115,8 +115,13 @@ def run_check(prop: str, fn: Callable[[Ctx], None], root: str, tier: str, seed: 
         counts: Dict[str, int] = {r: 0 for r in ctx.rules}
         for o in ctx.obs:
             counts[o.rule] += 1
+        has_failing = any(not o.ok for o in ctx.obs)
         for r, floor in ctx.floors.items():
             if counts[r] < floor:
+                if has_failing:
+                    # a definite violation was found: report it; the missing instances are a consequence
+                    ctx.note(f'rule {r}: only {counts[r]} instance(s) found, floor is {floor}')
+                    continue
                 raise AnalysisError(r, prop, f'only {counts[r]} instance(s) found, floor is {floor} '
                                              f'(vanished anchor or unrecognised idiom)')
         st = None
